@@ -104,6 +104,13 @@ def run(tier, seed, replay=None):
             name, srcs = mutate.gen_mutant(rng.fork(), samples)
             if name:
                 mut.append({'sources': srcs, 'entry': 'tests.AllTests', 'features': ['mutant:' + name], 'mutated': name})
+    if not replay:
+        # the passes that delete or merge definitions (MIR / LIR unused-name elimination, type deduplication): Gallina mirrors,
+        # closure / exactness / semantics theorems, output equality with the real passes, and a verified validator
+        # (`lir_no_dangling`, proved to decide "no dangling reference") on the FINAL LIR of every generated program
+        from checks import c03_names
+        check_props(ck, 'theories/C03names/Props.v')
+        c03_names.names(ck, tier, seed)
     ck.rule = ('accepted generated programs (gen/progs.py incl. layout-focused programs) run end to end; token-level mutants of tests/*.sam '
                'that the checker still accepts are compiled (whole test program set) in debug and release builds and validated; '
                'distinct = distinct program text; non-trivial = accepted by the checker')
